@@ -150,6 +150,10 @@ def obj_spec(rng, cls, path_len=1, half_init=0.0, pixel_kind=None):
         spec["kw"] = {}
     else:
         spec["kw"] = source_kw(rng, cls, half_init)
+    if cls == "TriangularMesh" and rng.random() < 0.3:
+        spec["ctor"] = rng.choice(["from_ConvexHull", "from_triangles", "from_mesh"])
+        if spec["ctor"] == "from_ConvexHull":
+            spec["kw"]["faces"] = [[0, 1, 2], [0, 1, 3], [0, 2, 3], [1, 2, 3]]  # the hull of a tetrahedron is closed
     if path_len >= 1:
         r = rng.random()
         if path_len == 1 and r < 0.3:
